@@ -877,6 +877,15 @@ func unspill(site ssa.Instruction, v ssa.Value) ssa.Value {
 // KnownNilAt: every path to site passes an edge on which v was tested to be nil.
 func KnownNilAt(fn *ssa.Function, site ssa.Instruction, v ssa.Value) bool {
 	v = unspill(site, v)
+	// pkg/errors wrappers answer nil for a nil error: errors.Wrap(err, …) on the edge where err is nil is nil
+	if cl, isCall := v.(*ssa.Call); isCall {
+		switch CalleeName(cl) {
+		case "github.com/pkg/errors.Wrap", "github.com/pkg/errors.Wrapf", "github.com/pkg/errors.WithStack", "github.com/pkg/errors.WithMessage", "github.com/pkg/errors.WithMessagef":
+			if len(cl.Call.Args) > 0 {
+				return KnownNilAt(fn, site, cl.Call.Args[0]) || KnownNilAt(fn, cl, cl.Call.Args[0])
+			}
+		}
+	}
 	if _, isConst := v.(*ssa.Const); isConst {
 		return false
 	}
